@@ -39,6 +39,9 @@ def _instant(i, tier, seed, rng):
         year, doy = (2016, j + 1) if j < 366 else (2019, j - 366 + 1) if j < 731 else (2020, j - 731 + 1)
         return {"year": year, "doy": doy, "ms": rng.choice([0, 86399999, rng.randrange(86400000)]), "us": 0}, "sweep"
     cls = DAY_CLASSES[i % len(DAY_CLASSES)]
+    if i % 13 == 5:
+        # wall-clock times inside some time zone's spring-forward gap, and the year 2000 (divisible by 400)
+        return gen.rand_instant(rng, rng.choice(["dst-gap", "dst-gap", "y2000"]))
     year = rng.randrange(2014, 2050)
     if cls == "d366":
         year = rng.choice([y for y in range(2014, 2050) if calendar.isleap(y)])
